@@ -407,7 +407,7 @@ def check_cli(job):
         if r["status"] != 0:
             msgs.append(f"error: run failed: {r['exc'] or r['stdout'][-200:]}")
         else:
-            page = rstobs.Page(box.files("work/out")["m.rst"])
+            page = rstobs.Page(box.page("work/out", "m.rst"))
             obs = [rstobs.abstract_entry(b) for b in page.entries()]
             # oracle: the same module documented through the API with a Settings object that carries these values
             # (which entries that must be is the main sweep's business; here: the file reaches the listener unchanged)
